@@ -20,6 +20,22 @@ class C06(WigBedProp):
             o = bbgen.gen_options(r, tier)
             if r.chance(1, 2):
                 names, sizes, data, tags = bbgen.gen_wig_input(r, value_mode="int")
+                if len(names) > 1 and r.chance(1, 2):
+                    # cross-chromosome extremes: a chromosome's (min, max) relates to the earlier ones' in every way —
+                    # widening both sides, one side, or neither — so each arm of the merge of summaries is exercised
+                    for ci, nm in enumerate(names):
+                        shape = r.choice(["both", "both", "low", "high", "inside"])
+                        lo = -(ci + 1) * 7 if shape in ("both", "low") else -1
+                        hi = (ci + 1) * 9 if shape in ("both", "high") else 1
+                        vals = list(data[nm])
+                        if len(vals) >= 2:
+                            i, j = r.below(len(vals)), r.below(len(vals))
+                            if i == j:
+                                j = (i + 1) % len(vals)
+                            vals[i] = (vals[i][0], vals[i][1], bbgen.f32bits(float(lo)))
+                            vals[j] = (vals[j][0], vals[j][1], bbgen.f32bits(float(hi)))
+                            data[nm] = vals
+                    tags.add("cross_chrom_extremes")
                 lines = [bbgen.opt_line(o)] + bbgen.wig_lines(names, sizes, data)
                 kind = "wig"
             else:
